@@ -32,7 +32,7 @@ class Universe:
 
         leaf_fields = [("a", "n", None), ("v", "n", None)]
         # two dynamically sized fields: values of one total size can split it differently (cached offsets of a view go stale)
-        d = {"_xofields": {"a": num(0, "a"), "v": num(0, "v"), "arr": xo.Float64[:], "brr": xo.Int64[:]}}
+        d = {"_xofields": {"a": num(0, "a"), "v": num(0, "v"), "mat": xo.Float64[2, 2], "arr": xo.Float64[:], "brr": xo.Int64[:]}}
         force = force or {}
         ren0 = {"v": "vee"} if r.random() < 0.5 else {}
         if "ren" in force:
@@ -72,7 +72,7 @@ class Universe:
         self.spec.append(([("s", "n", None), ("mid", k2, 1), ("leaf", k3, 0)], ren2))
         self.classes.append(Top)
         # class 3: a class DERIVED from Leaf that declares its fields again with its own defaults (and its own renaming)
-        d = {"_xofields": {"a": num(3, "a"), "v": num(3, "v"), "arr": xo.Float64[:], "brr": xo.Int64[:]}}
+        d = {"_xofields": {"a": num(3, "a"), "v": num(3, "v"), "mat": xo.Float64[2, 2], "arr": xo.Float64[:], "brr": xo.Int64[:]}}
         ren3 = {"a": "aye"} if r.random() < 0.5 else {}
         if "ren" in force:
             ren3 = dict(force["ren"][3])
@@ -95,7 +95,8 @@ class Universe:
         out = []
         for ci, (fields, ren) in enumerate(self.spec):
             out.append(",".join([f"{n}>{ren.get(n, n)}=" + (f"n{self.defaults[(ci, n)]}" if k == "n" else f"{k}{c}") for n, k, c in fields]
-                                + (["arr>arr=a", "brr>brr=a"] if ci in self.leaflike else [])))     # arrays of dynamic shape: no default
+                                # a 2-D array of static shape (default: zeros), two arrays of dynamic shape (no default)
+                                + (["mat>mat=z4", "arr>arr=a", "brr>brr=a"] if ci in self.leaflike else [])))
         return "univ " + ";".join(out)
 
     def pyname(self, ci, xo_name):
@@ -117,6 +118,7 @@ def plain_default(U, ci):
         elif k == "N":
             out[n] = plain_default(U, c)
     if ci in U.leaflike:
+        out["mat"] = [[0.0, 0.0], [0.0, 0.0]]
         out["arr"] = [0.0, 0.0]
         out["brr"] = [0, 0]
     return out
@@ -224,6 +226,8 @@ class Case:
                     words.append(f"{py}=none")
         if ci in U.leaflike:
             na = r.randint(0, 4)                      # one total size (4 items), different splits - an empty array included
+            if r.random() < 0.6:                      # else: left at its default (zeros)
+                kw["mat"] = [[float(r.choice([0, 0, 1, 7])) for _ in range(2)] for _ in range(2)]
             kw["arr"] = [float(r.randint(0, 9)) for _ in range(na)]
             kw["brr"] = [r.randint(10, 19) for _ in range(4 - na)]
         name = self.new_name()
@@ -464,6 +468,7 @@ class Case:
             elif depth < 4:
                 out[n] = self.values(v, depth + 1) if hasattr(v, "_xobject") else ("bare", self.xvalues(v, c))
         if ci in self.U.leaflike:
+            out["mat"] = [float(x) for x in np.asarray(obj.mat).reshape(-1)]
             out["arr"] = [float(x) for x in obj.arr]
             out["brr"] = [int(x) for x in obj.brr]
         return out
@@ -480,6 +485,7 @@ class Case:
             elif depth < 4:
                 out[n] = self.xvalues(v, c, depth + 1)
         if ci in self.U.leaflike:
+            out["mat"] = [float(q) for q in x.mat.to_nparray().reshape(-1)]
             out["arr"] = [float(q) for q in x.arr.to_nparray()]
             out["brr"] = [int(q) for q in x.brr.to_nparray()]
         return out
@@ -609,7 +615,7 @@ def venc(U, ci, val):
         else:
             out.append(venc(U, c, v))
     if ci in U.leaflike:
-        for n in ("arr", "brr"):
+        for n in ("mat", "arr", "brr"):
             out.append("a" + ("/".join(str(int(x)) for x in val[n]) or "-"))
     return "(" + " ".join(out) + ")"
 
@@ -622,8 +628,10 @@ def canon_dict(d):
         return "{" + ",".join(sorted(f"{k}:{canon_dict(v)}" for k, v in d.items() if k != "__class__")) + "}"
     if hasattr(d, "_fields") and hasattr(d, "_buffer"):        # a bare xobject stored for a reference
         return "{" + ",".join(sorted(f"{f.name}:{canon_dict(getattr(d, f.name))}" for f in d._fields)) + "}"
+    if hasattr(d, "to_nparray"):                                # an xobject array inside the full dictionary of a referent
+        d = d.to_nparray()
     if hasattr(d, "__len__"):                                   # an array-valued field: a list of numbers
-        return "[" + ",".join(str(int(x)) for x in d) + "]"
+        return "[" + ",".join(str(int(x)) for x in np.asarray(d).reshape(-1)) + "]"
     return str(int(d))
 
 
